@@ -168,9 +168,10 @@ Proof. exact ts_oracle_sound. Qed.
 Print Assumptions C02_ts_oracle_sound.
 
 (* the whole oracle for timestamped measurements (slice only reordered as full records, error nil, timestamp
-   between the two selected, offset contained) holds for the model: all inputs, all tie orders *)
-Theorem C02_meas_ftm_oracle : forall tagged ms s, ms <> [] -> all_wf ms -> tm_sorted_perm ms s ->
-  map fst tagged = map tm_off ms -> C02_meas_ftm_ok tagged ms (tftm_sorted s) s = true.
+   between the two selected, offset contained for every choice of the arbitrary positions) holds for the model:
+   all inputs, all tie orders *)
+Theorem C02_meas_ftm_oracle : forall ms s, ms <> [] -> all_wf ms -> tm_sorted_perm ms s ->
+  C02_meas_ftm_ok ms (tftm_sorted s) s = true.
 Proof. exact meas_ftm_oracle. Qed.
 Print Assumptions C02_meas_ftm_oracle.
 
@@ -178,6 +179,72 @@ Theorem C02_meas_median_oracle : forall ms s, ms <> [] -> all_wf ms -> tm_sorted
   C02_meas_median_ok ms (tmedian_sorted s) s = true.
 Proof. exact meas_median_oracle. Qed.
 Print Assumptions C02_meas_median_oracle.
+
+(* ---- every choice of the arbitrary positions ----
+   the property quantifies over every choice of at most floor((n-1)/3) arbitrary positions: a result is within
+   the range of the remaining values for every such choice iff it lies between the (f+1)-th smallest and the
+   (f+1)-th largest input *)
+Theorem C02_ftm_every_choice : forall (l : list Z) res, l <> [] ->
+  let n := length l in let f := ((n - 1) / 3)%nat in
+  nth f (zsort l) 0 <= res <= nth (n - 1 - f) (zsort l) 0 <-> contained_for_every_choice l res.
+Proof. exact ftm_every_choice_iff. Qed.
+Print Assumptions C02_ftm_every_choice.
+
+(* the oracle used on the implementation's results accepts exactly that ... *)
+Theorem C02_ftm_strong_oracle_iff : forall l res, l <> [] -> (forall x, In x l -> Z.abs x < 2^62) ->
+  C02_ftm_strong_ok l res = true <-> contained_for_every_choice l res.
+Proof. exact ftm_strong_ok_iff. Qed.
+Print Assumptions C02_ftm_strong_oracle_iff.
+
+(* ... the model passes it on all inputs ... *)
+Theorem C02_ftm_strong_oracle : forall l res, ftm l = Some res -> C02_ftm_strong_ok l res = true.
+Proof. exact ftm_strong_oracle. Qed.
+Print Assumptions C02_ftm_strong_oracle.
+
+(* ... and it implies the check against any single designated set *)
+Theorem C02_ftm_strong_implies_designated : forall tl res,
+  C02_ftm_strong_ok (map fst tl) res = true -> C02_ftm_ok tl res = true.
+Proof. exact ftm_strong_implies_designated. Qed.
+Print Assumptions C02_ftm_strong_implies_designated.
+
+(* ---- independence of the order of the inputs, measurements ----
+   offset and nil error never depend on the order (C02_meas_ftm, C02_meas_median with C02_perm_invariant); with
+   pairwise distinct offsets neither does the slice left behind nor the timestamp *)
+Theorem C02_meas_order_independent : forall ms ms' s s',
+  Permutation ms ms' -> NoDup (map tm_off ms) -> tm_sorted_perm ms s -> tm_sorted_perm ms' s' ->
+  s = s' /\ tftm_sorted s = tftm_sorted s' /\ tmedian_sorted s = tmedian_sorted s'.
+Proof. exact meas_order_independent. Qed.
+Print Assumptions C02_meas_order_independent.
+
+(* with tied offsets the combined timestamp depends on which of the tied records the sort puts where:
+   "independent of the order of the inputs", taken literally for the timestamp, is refuted *)
+Theorem C02_meas_tie_order_refuted :
+  let a := {| tm_ts := {| gt_sec := 1; gt_nsec := 0 |}; tm_off := 0; tm_err := false |} in
+  let b := {| tm_ts := {| gt_sec := 2; gt_nsec := 0 |}; tm_off := 0; tm_err := false |} in
+  let c := {| tm_ts := {| gt_sec := 3; gt_nsec := 0 |}; tm_off := 0; tm_err := false |} in
+  let ms := [a; b; c] in let s := [a; b; c] in let s' := [a; c; b] in
+  all_wf ms /\ tm_sorted_perm ms s /\ tm_sorted_perm ms s' /\
+  tm_off (tftm_sorted s) = tm_off (tftm_sorted s') /\
+  tm_ts (tftm_sorted s) = {| gt_sec := 2; gt_nsec := 0 |} /\ tm_ts (tftm_sorted s') = {| gt_sec := 1; gt_nsec := 500000000 |} /\
+  tm_ts (tmedian_sorted s) = {| gt_sec := 2; gt_nsec := 0 |} /\ tm_ts (tmedian_sorted s') = {| gt_sec := 3; gt_nsec := 0 |} /\
+  C02_meas_perm_strict_ok (tftm_sorted s) (tftm_sorted s') = false.
+Proof. exact meas_tie_order_refuted. Qed.
+Print Assumptions C02_meas_tie_order_refuted.
+
+Theorem C02_meas_perm_oracle : forall ms ms' s s', ms <> [] ->
+  Permutation ms ms' -> tm_sorted_perm ms s -> tm_sorted_perm ms' s' ->
+  C02_meas_perm_ok ms (tftm_sorted s) (tftm_sorted s') = true /\
+  C02_meas_perm_ok ms (tmedian_sorted s) (tmedian_sorted s') = true.
+Proof. exact meas_perm_oracle. Qed.
+Print Assumptions C02_meas_perm_oracle.
+
+(* the one-integer time model of the source translator (Unix nanoseconds) and this one: unix_repr is exactly the
+   range of time.Time, the conversions are inverse on it (used by GenEquiv/C02.v) *)
+Theorem C02_time_unix_range :
+  (forall t, gt_wf t -> unix_repr (gt_unix t) /\ gt_of_unix (gt_unix t) = t) /\
+  (forall u, unix_repr u -> gt_wf (gt_of_unix u) /\ gt_unix (gt_of_unix u) = u).
+Proof. exact unix_range_exact. Qed.
+Print Assumptions C02_time_unix_range.
 
 (* hypotheses satisfiable: zero time.Time{} and a modern time (Sub saturates), an errored input selected *)
 Example C02_meas_example :
